@@ -397,3 +397,55 @@ theorem MontConst.odd {q qinv : Nat} (h : MontConst q qinv) : q % 2 = 1 := by
   rcases Nat.mod_two_eq_zero_or_one q with h0 | h0
   · rw [Nat.mul_mod, h0] at h2; simp at h2
   · exact h0
+
+theorem MontConst.coprime {q qinv : Nat} (hm : MontConst q qinv) : Nat.Coprime q W := by
+  unfold MontConst at hm
+  have hd := Nat.div_add_mod (q * qinv) W
+  rw [hm] at hd
+  have hg1 : Nat.gcd q W ∣ q * qinv := Nat.dvd_trans (Nat.gcd_dvd_left q W) (Nat.dvd_mul_right q qinv)
+  have hg2 : Nat.gcd q W ∣ W * (q * qinv / W) := Nat.dvd_trans (Nat.gcd_dvd_right q W) (Nat.dvd_mul_right _ _)
+  rw [← hd] at hg1
+  exact Nat.eq_one_of_dvd_one ((Nat.dvd_add_right hg2).1 hg1)
+
+/-- `MRedLazy 1 (2^64 mod q) = 1` for every admissible modulus: the value `1` (the minimum of the
+range `[1, 2q-1]`) is attained. -/
+theorem MRedLazy_one (q qinv : Nat) (hq : 2 * q ≤ W) (hm : MontConst q qinv) :
+    MRedLazy 1 (W % q) q qinv = 1 := by
+  have hq0 := hm.pos
+  have hy : W % q < q := Nat.mod_lt _ hq0
+  have hxy : 1 * (W % q) < q * W := by
+    rw [Nat.one_mul]; exact Nat.lt_of_lt_of_le hy (Nat.le_mul_of_pos_right q (by decide))
+  obtain ⟨he, hlt, hpos⟩ := MRedLazy_eq 1 (W % q) q qinv hq hm hxy
+  generalize MRedLazy 1 (W % q) q qinv = r at *
+  generalize (1 * (W % q)) % W * qinv % W = m at *
+  have hW := Nat.div_add_mod W q
+  have hdvd : q ∣ (r - 1) * W := by
+    apply Nat.dvd_of_mod_eq_zero
+    rw [← Nat.zero_mod q]
+    apply mod_eq_of_add_mul_eq (k1 := m + W / q) (k2 := W)
+    rw [Nat.add_mul, Nat.mul_comm (W / q) q]
+    generalize m * q = A at *
+    generalize q * (W / q) = B at *
+    generalize W % q = C at *
+    unfold W at *
+    apply Nat.le_antisymm <;> omega
+  obtain ⟨c, hc⟩ := hm.coprime.dvd_of_dvd_mul_right hdvd
+  rcases Nat.lt_or_ge c 1 with h0 | h1
+  · have : c = 0 := by omega
+    subst this; omega
+  · exfalso
+    have hqc : q ≤ q * c := Nat.le_mul_of_pos_right q h1
+    have hr : q + 1 ≤ r := by omega
+    rcases Nat.lt_or_ge c 2 with h2 | h2
+    · have : c = 1 := by omega
+      subst this
+      have hr' : r = q + 1 := by omega
+      subst hr'
+      generalize m * q = A at *
+      generalize W % q = C at *
+      unfold W at *
+      omega
+    · have : q * 2 ≤ q * c := Nat.mul_le_mul_left q h2
+      omega
+
+end Lattigo
